@@ -71,6 +71,7 @@ class Unit:
         if not os.path.exists(self.path):
             raise Undecided('no such unit %s' % name)
         self.serves = []
+        self.no_panic = []
         self.rules = {'R1', 'R2', 'R4', 'R5', 'R9', 'R10', 'R11'}
         self.guard_panics = False
         self.substs = []   # (scope, is_regex, frm, to)
@@ -195,6 +196,37 @@ class Unit:
 
     # ---- parsing the template
     def assemble(self, canary=False):
+        """two passes: constants the extracted code refers to, that the template does not list and that are top-level `const`s of a file
+        something is extracted from, are extracted too (in front of the first item taken from that file)"""
+        self.auto_consts = {}
+        out = self._assemble(canary)
+        text = out.text()
+        defined = set(re.findall(r'\b(?:const|static)\s+([A-Z][A-Z0-9_]+)\b', text))
+        used = set()
+        for ln, o in zip(out.lines, out.origin):
+            if o.get('kind') == 'src':
+                used |= set(re.findall(r'(?<![:\w])([A-Z][A-Z0-9_]{2,})\b(?!\s*[:!(]{1,2}[:\w(])', ln))
+        files = sorted({o['file'] for o in out.origin if o.get('kind') == 'src' and o.get('file')})
+        want = {}
+        for nm in sorted(used - defined):
+            for rel in files:
+                try:
+                    self.find_item(rel, 'const', nm)
+                except Undecided:
+                    continue
+                want.setdefault(rel, []).append(nm)
+                break
+        if want:
+            self.auto_consts = want
+            out = self._assemble(canary)
+        return out
+
+    def _auto_consts_for(self, out, rel):
+        for nm in self.auto_consts.pop(rel, []):
+            self.emit_item(out, rel, 'const', nm, ['optional'])
+            out.count('R16', 1)
+
+    def _assemble(self, canary=False):
         out = Out()
         tmpl = self.load_template(self.path)
         self.imported_lines = [ln.startswith('\x00') for ln in tmpl]
@@ -218,6 +250,9 @@ class Unit:
                 pass
             elif d == 'serves':
                 self.serves = parts[1:]
+            elif d == 'no-panic':
+                # properties that promise 'this thread never panics': every panic / overflow / bounds obligation of the unit counts for them
+                self.no_panic = parts[1:]
             elif d == 'norule':
                 self.rules -= set(parts[1:])
             elif d == 'guard-panics':
@@ -297,6 +332,7 @@ class Unit:
                 out.count('R13', n_inv)
             elif d == 'item':
                 rel, kind, name = parts[1], parts[2], parts[3]
+                self._auto_consts_for(out, rel)
                 self.emit_item(out, rel, kind, name, parts[4:])
             elif d == 'impl':
                 segs = [x.strip() for x in arg.split(':::')]
@@ -306,6 +342,7 @@ class Unit:
                     if sg.startswith('rehost '):
                         rehost = sg[len('rehost '):]
                 it = self.find_impl(rel, header)
+                self._auto_consts_for(out, rel)
                 subs = rx.sub_items(it)
                 trait_impl = re.search(r'\bfor\b', it.name.split(' where')[0]) is not None and rehost is None
                 hdr = rehost if rehost else it.src[it.sig_begin:it.body_open].rstrip()
@@ -904,6 +941,8 @@ def analyse(out, res, unit):
             props = f['props'] if f else unit.serves
             if f and kind in ('overflow', 'panic', 'assert', 'bounds', 'division') and f.get('safety'):
                 props = f['safety']
+            if kind in ('overflow', 'panic', 'assert', 'bounds', 'division', 'precondition') and unit.no_panic:
+                props = list(props) + [x for x in unit.no_panic if x not in props]
             if f and f.get('sites'):
                 # which occurrence of the call-site text is the failing line?
                 done_ = False
